@@ -32,10 +32,16 @@ CanDoT(id) == /\ phase = "run" /\ id \in BIds /\ id \notin done
               /\ Gate(IF id = "Geom" THEN cfg ELSE Going, id)
               /\ Deps[id] \subseteq done
 
-(* header values: <<"n", double>> or <<"s", token>>.  A FITS card holds a float as at most 20 characters of   *)
+(* header values: <<"n", double>>, <<"s", token>> or <<"x", token>> (non-finite float).  A FITS card holds a float as at most 20 characters of *)
 (* text (astropy truncates str(value)), so numbers on disk are compared at that precision.                  *)
-MetaEq(a, b) == /\ a[1] = b[1]
-                /\ IF a[1] = "n" THEN FClose(a[2], b[2], FDec("1e-13"), FZero) ELSE a[2] = b[2]
+(* A non-finite float (<<"x", token>>: NaN, +-inf - e.g. the ddof = 1 uncertainty of a run with ONE surviving trajectory) cannot *)
+(* be held by a FITS header card at all (astropy omits the card): such a keyword may be missing from the file, every other one   *)
+(* must be there.                                                                                                                *)
+MetaEq(a, b) == \/ b[1] = "x"
+                \/ /\ a[1] = b[1]
+                   /\ IF a[1] = "n" THEN FClose(a[2], b[2], FDec("1e-13"), FZero) ELSE a[2] = b[2]
+Unrepresentable == {k \in DOMAIN metav : metav[k][1] = "x"}
+MetaKeysEq(onDisk, inMem) == onDisk \subseteq inMem /\ inMem \ onDisk \subseteq Unrepresentable
 
 SeqOfFcn(f, names) == [i \in 1..Len(names) |-> f[names[i]]]
 
@@ -44,7 +50,7 @@ SnapIsMem(s) ==
     /\ s.present
     /\ s.cols = mem.cols
     /\ s.dig = SeqOfFcn(dig, mem.cols)
-    /\ Range(s.meta) = mem.meta
+    /\ MetaKeysEq(Range(s.meta), mem.meta)
     /\ \A i \in 1..Len(s.meta) : s.meta[i] \in DOMAIN metav /\ MetaEq(s.metav[i], metav[s.meta[i]])
     /\ (mem.cols # <<>> => s.rows = rows)
 
@@ -54,7 +60,7 @@ SnapIsCommitted(s) ==
     /\ s.present
     /\ s.cols = cc
     /\ s.dig = SeqOfFcn(dig, cc)
-    /\ Range(s.meta) = mem.meta \ burst
+    /\ MetaKeysEq(Range(s.meta), mem.meta \ burst)
     /\ \A i \in 1..Len(s.meta) : s.meta[i] \in DOMAIN metav /\ MetaEq(s.metav[i], metav[s.meta[i]])
 
 DiskClausesAt(s, inCall) ==
